@@ -1,19 +1,21 @@
 """C05 kernel interest set == union of added I/O events at every backend wait (DESIGN §3 C05)."""
 from checks import generic
 
-RULE = ("(1) every op sequence of length <= L (quick L=3: 2 954, thorough L=5: 579 194) over {add R, add W, add CLOSED, del R, del W, del CLOSED, "
+RULE = ("(1) every op sequence of length <= L (quick L=3: 2 954 on 4 configurations; thorough L=4: 41 370 on 4 configurations and L=5: 579 194 on epoll+changelist and poll) over {add R, add W, add CLOSED, del R, del W, del CLOSED, "
         "close+reopen (del-then-close / close-then-del / dup2 over the open fd)} x 2 fds executed between two backend waits from a random pre-state, "
         "followed by one more random op and a third wait; (2) random histories with 1-8 (big: up to 150) adds/dels/closes/reopens/dup2 between "
         "waits on up to 88 fds (changelist growth past 64 entries), several events per fd, one-shot events, in-callback deletes. At every wait of "
         "every configuration the kernel-side set (epoll: /proc/self/fdinfo/<epfd>; poll: pollfd[]; select: fd_sets+nfds) is compared with the shadow "
         "OR of the added events per fd (ET flag on epoll); non-trivial = some user event was added at a compared wait; distinct = hash of the script")
 STEPS = [
-    dict(flavor="asan", harness="h_io", args=["--mode", "c05enum", "--n1", "3"], cases=dict(quick=2954, thorough=2954), tiers=("quick",),
+    dict(flavor="asan", harness="h_io", args=["--mode", "c05enum", "--n1", "3", "--n2", "0x55"], cases=dict(quick=2954, thorough=2954), tiers=("quick",),
          timeout=dict(quick=300, thorough=300)),
-    dict(flavor="asan", harness="h_io", args=["--mode", "c05enum", "--n1", "5", "--n2", "0x55"], cases=dict(quick=579194, thorough=579194),
-         tiers=("thorough",), timeout=dict(quick=2400, thorough=2400)),
-    dict(flavor="asan", harness="h_io", args=["--mode", "c05"], cases=dict(quick=1500, thorough=120000), seed_off=3,
-         timeout=dict(quick=300, thorough=2400)),
+    dict(flavor="asan", harness="h_io", args=["--mode", "c05enum", "--n1", "4", "--n2", "0x55"], cases=dict(quick=41370, thorough=41370),
+         tiers=("thorough",), timeout=dict(quick=3600, thorough=3600)),
+    dict(flavor="asan", harness="h_io", args=["--mode", "c05enum", "--n1", "5", "--n2", "0x14"], cases=dict(quick=579194, thorough=579194),
+         tiers=("thorough",), timeout=dict(quick=3600, thorough=3600), seed_off=1),
+    dict(flavor="asan", harness="h_io", args=["--mode", "c05"], cases=dict(quick=1000, thorough=120000), seed_off=3,
+         timeout=dict(quick=300, thorough=3600)),
 ]
 
 REG = dict(
@@ -22,7 +24,7 @@ REG = dict(
          "interest set at every backend wait (for epoll the kernel's own view from /proc/self/fdinfo/<epfd>), which must equal, for every non-internal "
          "fd, the OR of the interests of the events the harness currently has added (edge flag exactly when requested; select on R/W only); internal fds "
          "(notify, signal socketpair / signalfd) must be read-only registrations. Workloads: bounded-exhaustive op sequences on 2 fds between two waits "
-         "(all 579 194 sequences of length <=5 in thorough, <=3 in quick) plus 1.5k/120k random histories incl. cancelling add/del pairs, close+reopen of "
+         "(thorough: all 41 370 sequences of length <=4 on epoll, epoll+changelist, poll, select and all 579 194 of length <=5 on epoll+changelist and poll; quick: length <=3) plus 1k/120k random histories incl. cancelling add/del pairs, close+reopen of "
          "the same fd number, dup2 over a registered fd, changelist growth to >64 entries; on epoll, epoll+changelist, poll, select x self-pipe/signalfd. "
          "ASan+UBSan, asserts on. Sampling beyond the enumerated bound: held-on-observed.",
     note="trusts /proc/self/fdinfo and the wrapped syscall arguments as the kernel's view, and the shadow map in harness/h_io.c; events are deleted before "
@@ -36,6 +38,7 @@ def run(tier, seed):
     return generic.run_spec("C05", tier, seed, STEPS, RULE,
                             required=["waits_compared", "waits_epoll", "waits_epollcl", "waits_poll", "waits_select", "user_fds_compared",
                                       "internal_fds_seen", "enumerated_histories", "event_adds", "event_dels", "event_readds", "fd_number_reused",
-                                      "dup2_over_open_fd", "close_before_del", "cb_et", "del_in_callback", "callbacks"],
+                                      "dup2_over_open_fd", "close_before_del", "cb_et", "del_in_callback", "callbacks", "changelist_grown_past_64",
+                                      "waits_after_over_64_fds_changed"],
                             assumptions=["the interest set is sampled at the wait call (after the backend applied its pending changes), which is the point the property names",
-                                         "thorough enumeration runs the 4 self-pipe configurations; signalfd variants are covered by the random histories and the quick enumeration"])
+                                         "the enumerations run the 4 self-pipe configurations; signalfd variants are covered by the random histories"])
